@@ -60,8 +60,12 @@ static bool roundtrip(const std::string& cls, const T& x, Fresh&& fresh, ObsF&& 
     const std::string rp = "{\"case\": " + vf::jstr(casestr) + "}";
     static thread_local std::unique_ptr<T> keep;
     try {
+        const std::string cx0 = vf::canon(x);       // no public getter is called before pack(): getters fill serialized caches
         Ser s1; s1.pack(x);
         const size_t packed = s1.position();
+        if (s1.buf().size() != packed) R->violation("C11:" + cls + ":buffer-size-differs-from-bytes-written", cls + ": pack() sized its buffer for " + std::to_string(s1.buf().size()) + " bytes but wrote " + std::to_string(packed) + " (the sizing pass and the writing pass saw different objects); case " + casestr, rp);
+        { const std::string cx1 = vf::canon(x); if (cx1 != cx0) R->violation("C11:" + cls + ":pack-changes-the-packed-object:m" + std::to_string(vf::first_diff_member(cx0, cx1)), cls + ": pack() changed the object it packed: " + first_diff(cx0, cx1) + "; case " + casestr, rp);
+        }
         auto y = fresh();
         s1.unpack(*y);
         const size_t consumed = s1.position();
@@ -71,7 +75,7 @@ static bool roundtrip(const std::string& cls, const T& x, Fresh&& fresh, ObsF&& 
         Ser s2; s2.pack(*y);
         if (s2.position() != packed) R->violation("C11:" + cls + ":repack-length", cls + ": re-packing the unpacked object gives " + std::to_string(s2.position()) + " bytes instead of " + std::to_string(packed) + "; case " + casestr, rp);
         else if (s2.buf() != s1.buf()) R->count(cls + "_repack_bytes_differ_but_canon_equal");
-        const std::string cx = vf::canon(x), cy = vf::canon(*y);
+        const std::string& cx = cx0; const std::string cy = vf::canon(*y);
         if (cx != cy) R->violation("C11:" + cls + ":serialized-member-differs:m" + std::to_string(vf::first_diff_member(cx, cy)), cls + ": a serialized member differs after the round trip: " + first_diff(cx, cy) + "; case " + casestr, rp);
         if constexpr (has_eq<T>::value) if (!(x == *y)) { if (cx == cy) R->violation("C11:" + cls + ":operator-eq-false", cls + ": x == unpack(pack(x)) is false although every serialized member is canonically equal; case " + casestr, rp); else R->count("operator_eq_false_with_member_difference"); }
         const std::string ox = obsf(x), oy = obsf(*y);
@@ -204,8 +208,8 @@ static void dynamic_states(bool thorough) {
         data::Solution sol; data::Wells wells; data::GroupAndNetworkValues grp; data::Aquifers aq;
         if (mask & 1) sol.insert("PRESSURE", UnitSystem::measure::pressure, std::vector<double>{1e7, 2e7, 3e7}, data::TargetType::RESTART_SOLUTION);
         if (mask & 2) sol.insert("SWAT", UnitSystem::measure::identity, std::vector<double>{0.1, 0.2, 0.3}, data::TargetType::RESTART_SOLUTION);
-        if (mask & 4) { data::Well w; w.rates.set(data::Rates::opt::oil, -1.5e-3); w.rates.set(data::Rates::opt::wat, -2.5e-4); w.bhp = 2.1e7; w.thp = 1e6; w.temperature = 350; w.control = 3; data::Connection c; c.index = 5; c.pressure = 2e7; c.rates.set(data::Rates::opt::oil, -1e-3); c.trans_factor = 1e-12; w.connections.push_back(c); wells["P1"] = w; }
-        if (mask & 8) { data::Well w; w.rates.set(data::Rates::opt::wat, 3e-3); w.bhp = 3e7; data::Segment s; s.segNumber = 2; s.rates.set(data::Rates::opt::wat, 1e-3); s.pressures[data::SegmentPressures::Value::Pressure] = 2.5e7; w.segments[2] = s; wells["I1"] = w; }
+        if (mask & 4) { data::Well w{}; w.rates.set(data::Rates::opt::oil, -1.5e-3); w.rates.set(data::Rates::opt::wat, -2.5e-4); w.bhp = 2.1e7; w.thp = 1e6; w.temperature = 350; w.control = 3; data::Connection c{}; c.index = 5; c.pressure = 2e7; c.rates.set(data::Rates::opt::oil, -1e-3); c.trans_factor = 1e-12; w.connections.push_back(c); wells["P1"] = w; }
+        if (mask & 8) { data::Well w{}; w.rates.set(data::Rates::opt::wat, 3e-3); w.bhp = 3e7; data::Segment s{}; s.segNumber = 2; s.rates.set(data::Rates::opt::wat, 1e-3); s.pressures[data::SegmentPressures::Value::Pressure] = 2.5e7; w.segments[2] = s; wells["I1"] = w; }
         if (mask & 16) { grp.groupData["G1"].currentControl.currentProdConstraint = Group::ProductionCMode::ORAT; grp.nodeData["G1"].pressure = 1.5e7; }
         RestartValue rv(sol, wells, grp, aq);
         if (mask & 2) rv.addExtra("EXTRA", UnitSystem::measure::pressure, std::vector<double>{1.0, 2.0});
@@ -220,20 +224,22 @@ int main(int argc, char** argv) {
     { auto bd = parser.parseString(schedgen::base_deck() + "END\n"); g_es = std::make_unique<EclipseState>(bd); }
     auto deep = schedgen::deep_alphabet(); auto broad = schedgen::broad_alphabet();
     const int deep_depth = run.thorough() ? 4 : 3;
-    run.rule = "objects: every Schedule reached by histories over the C03 deep alphabet up to depth " + std::to_string(deep_depth) + " and by prelude T a T b over all ordered pairs of the broad alphabet (every SCHEDULE handler keyword); EclipseState + SummaryConfig of the model deck in 4 unit keywords x feature switches; SummaryState/UDQState/Action::State/WellTestState reached by all update sequences up to length " + std::to_string(run.thorough() ? 4 : 3) + "; RestartValue for all 32 feature subsets; invariant per object: unpack consumes the packed size, canon equal (all serialized members), operator==, public query sweep equal, re-pack same length; Schedules additionally: applying ACTIONX A1 to original and copy gives equal schedules; states = Schedules checked, transitions = future checks";
+    run.rule = "objects: every Schedule reached by histories over the C03 deep alphabet up to depth " + std::to_string(deep_depth) + " and by prelude T a T b over all ordered pairs of the broad alphabet (every SCHEDULE handler keyword); EclipseState + SummaryConfig of the model deck in 4 unit keywords x feature switches; SummaryState/UDQState/Action::State/WellTestState reached by all update sequences up to length " + std::to_string(run.thorough() ? 4 : 3) + "; RestartValue for all 32 feature subsets; TableManager of 60 table families one at a time and in ordered pairs (PLYSHLOG/ROCKTAB are split and merged by hand in serializeOp), each also compared with a twin built from the same deck; invariant per object: pack() sizes its buffer for exactly the bytes it writes and leaves the packed object canonically unchanged, unpack consumes the packed size, canon equal (all serialized members), operator==, public query sweep equal, re-pack same length; Schedules additionally: applying ACTIONX A1 to original and copy gives equal schedules; states = Schedules checked, transitions = future checks";
     run.assumptions = {"EclipseState grid and field properties excluded as the statement says", "canon() normalisations (UnitSystem cache, DeckItem raw/SI flag, KeywordLocation)", "byte identity of the re-packed buffer is reported, not required (statement: same length and meaning)"};
 
+    std::string only;                                          // replay of one ES / TM case: the enumeration below runs with this filter
     if (!run.replay_path.empty()) {
         std::istringstream ss(run.replay_path); std::string regime; ss >> regime; std::vector<int> h; int x; while (ss >> x) h.push_back(x);
         if (regime == "deep") { g_alpha = &deep; g_prelude = ""; check_schedule(regime, h); }
         else if (regime == "broad") { g_alpha = &broad; g_prelude = schedgen::prelude_wells(); check_schedule(regime, h); }
+        else if (regime == "TM" || regime == "ES") { run.nshards = 1; run.shard = 0; only = run.replay_path; }
         else { run.nshards = 1; dynamic_states(true); }
-        return run.finish();
+        if (only.empty()) return run.finish();
     }
     g_alpha = &deep; g_prelude = "";
-    { std::vector<int> h; dfs("deep", h, 0, deep_depth, 3); }
+    if (only.empty()) { std::vector<int> h; dfs("deep", h, 0, deep_depth, 3); }
     g_alpha = &broad; g_prelude = schedgen::prelude_wells();
-    {
+    if (only.empty()) {
         std::vector<int> ok; for (int a = 1; a < (int)broad.size(); ++a) if (build({0, a})) ok.push_back(a);
         for (int a : ok) for (int b : ok) { if (!run.mine()) continue; if (run.timed_out()) break; if (run.quick() && a != b && (a + b) % 3 != 0 && !(broad[a].name[0] == 'W' && broad[b].name[0] == 'G')) { /* quick: all singles via a==b diag + a third of pairs + all W x G pairs */ continue; } check_schedule("broad", {0, a, 0, b}); }
         if (run.shard == 0) run.sample_str("broad: prelude DATES " + broad[ok[3]].name + " DATES " + broad[ok[7]].name);
@@ -249,6 +255,7 @@ int main(int argc, char** argv) {
             if (feat & 1) { size_t q = t.find("GRID\n"); t.insert(q + 5, "FAULTS\n 'F1' 1 1 1 3 1 3 X /\n/\nMULTFLT\n 'F1' 0.5 /\n/\n"); }
             if (feat & 2) { size_t q = t.find("SOLUTION\n"); t.insert(q, "EQUALS\n FIPNUM 2 1 3 1 3 1 1 /\n/\n"); size_t r = t.find("EQLDIMS"); t.insert(r, "ENDSCALE\n /\n"); }
             const std::string cs = "ES " + std::string(unit) + " " + std::to_string(feat);
+            if (!only.empty() && cs != only) continue;
             run.current(cs);
             try {
                 auto deck = parser.parseString(t); EclipseState es(deck); Schedule sched(deck, es, g_python); SummaryConfig sc(deck, sched, es.fieldProps(), es.aquifer());
@@ -257,6 +264,106 @@ int main(int argc, char** argv) {
             } catch (const std::exception& e) { run.count("model_variants_rejected"); if (run.shard == 0) run.notes["model_reject"] = std::string(e.what()).substr(0, 200); }
         }
     }
+    // TableManager: one table family at a time and every ordered pair of families (serializeOp splits/merges the
+    // PLYSHLOG and ROCKTAB containers by hand; every other family goes through the generic containers)
+    {
+        static const std::vector<std::pair<std::string, std::string>> fam = {
+            {"none", ""},
+            {"PLYSHLOG", "PLYSHLOG\n 1.0 3.0 /\n 0.0000001 1.0\n 1.0 1.2\n 1000.0 2.4 /\n"},
+            {"ROCKTAB", "ROCKTAB\n 100 1.0 1.0\n 200 1.01 1.02\n 300 1.02 1.05 /\n"},
+            {"SWOF", "SWOF\n 0.2 0 1 0\n 0.8 1 0 0 /\n"},
+            {"SGOF", "SGOF\n 0 0 1 0\n 0.8 1 0 0 /\n"},
+            {"SWFN", "SWFN\n 0.2 0 0\n 1 1 0 /\n"},
+            {"SGFN", "SGFN\n 0 0 0\n 0.8 1 0 /\n"},
+            {"SOF3", "SOF3\n 0 0 0\n 0.8 1 1 /\n"},
+            {"SOF2", "SOF2\n 0 0\n 0.8 1 /\n"},
+            {"PVTO", "PVTO\n 10 20 1.1 1.5\n 60 1.08 1.7 /\n 40 80 1.25 1.1\n 150 1.22 1.2 /\n/\n"},
+            {"PVTG", "PVTG\n 20 0.0001 0.05 0.012\n 0 0.051 0.0121 /\n 80 0.0002 0.012 0.015\n 0 0.0125 0.0151 /\n/\n"},
+            {"PVDO", "PVDO\n 10 1.1 1.5\n 100 1.05 1.6 /\n"},
+            {"PVDG", "PVDG\n 10 0.1 0.012\n 100 0.01 0.015 /\n"},
+            {"PVTW", "PVTW\n 200 1.01 4e-5 0.5 0 /\n"},
+            {"PVCDO", "PVCDO\n 200 1.1 1e-4 1.5 0 /\n"},
+            {"DENSITY", "DENSITY\n 850 1020 0.9 /\n"},
+            {"ROCK", "ROCK\n 200 4e-5 /\n"},
+            {"PLYADS", "PLYADS\n 0 0\n 1 0.0001 /\n"},
+            {"PLYVISC", "PLYVISC\n 0 1\n 1 5 /\n"},
+            {"PLYMAX", "PLYMAX\n 3 0 /\n"},
+            {"PLYROCK", "PLYROCK\n 0.1 1.5 2000 1 0.0005 /\n"},
+            {"PLMIXPAR", "PLMIXPAR\n 0.7 /\n"},
+            {"SHRATE", "SHRATE\n 4.8 /\n"},
+            {"STONE1EX", "STONE1EX\n 1.5 /\n"},
+            {"VISCREF", "VISCREF\n 200 50 /\n"},
+            {"WATDENT", "WATDENT\n 300 1e-4 1e-6 /\n"},
+            {"PVTWSALT", "PVTWSALT\n 200 0 /\n 0 1.01 4e-5 0.5 0\n 10 1.0 4e-5 0.6 0 /\n"},
+            {"BDENSITY", "BDENSITY\n 1000 1050 /\n"},
+            {"SDENSITY", "SDENSITY\n 1.2 /\n"},
+            {"RSVD", "RSVD\n 2000 50\n 2100 60 /\n"},
+            {"RVVD", "RVVD\n 2000 0.0001\n 2100 0.0002 /\n"},
+            {"PBVD", "PBVD\n 2000 100\n 2100 120 /\n"},
+            {"RTEMPVD", "RTEMPVD\n 2000 60\n 2100 65 /\n"},
+            {"RTEMP", "RTEMP\n 70 /\n"},
+            {"SALTVD", "SALTVD\n 2000 10\n 2100 12 /\n"},
+            {"TLMIXPAR", "TLMIXPAR\n 0.6 0.7 /\n"},
+            {"PPCWMAX", "PPCWMAX\n 5 YES /\n"},
+            {"JFUNC", "JFUNC\n BOTH 30 40 0.5 0.5 XY /\n"},
+            {"GASDENT", "GASDENT\n 300 1e-4 1e-6 /\n"},
+            {"OILDENT", "OILDENT\n 300 1e-4 1e-6 /\n"},
+            {"SGWFN", "SGWFN\n 0 0 1 0\n 0.8 1 0 0 /\n"},
+            {"SLGOF", "SLGOF\n 0.2 1 0 0\n 1 0 1 0 /\n"},
+            {"PLYDHFLF", "PLYDHFLF\n 50 365\n 100 100 /\n"},
+            {"FOAMADS", "FOAMADS\n 0 0\n 1 0.0001 /\n"},
+            {"FOAMMOB", "FOAMMOB\n 0 1\n 1 0.5 /\n"},
+            {"AQUTAB", "AQUTAB\n 0.01 0.112\n 0.05 0.229 /\n"},
+            {"SPECHEAT", "SPECHEAT\n 20 2 4 2\n 100 2.1 4.1 2.1 /\n"},
+            {"SPECROCK", "SPECROCK\n 20 2000\n 100 2100 /\n"},
+            {"OILVISCT", "OILVISCT\n 20 2\n 100 1 /\n"},
+            {"WATVISCT", "WATVISCT\n 20 1\n 100 0.3 /\n"},
+            {"MSFN", "MSFN\n 0 0 1\n 1 1 0 /\n"},
+            {"PMISC", "PMISC\n 100 0\n 200 1 /\n"},
+            {"MISC", "MISC\n 0 0\n 1 1 /\n"},
+            {"SORWMIS", "SORWMIS\n 0 0\n 1 0.2 /\n"},
+            {"SGCWMIS", "SGCWMIS\n 0 0\n 1 0.1 /\n"},
+            {"TLPMIXPA", "TLPMIXPA\n 100 0\n 200 1 /\n"},
+            {"ENKRVD", "ENKRVD\n 2000 1 1 1 1 1 1 1\n 2100 0.9 0.9 0.9 0.9 0.9 0.9 0.9 /\n"},
+            {"ENPTVD", "ENPTVD\n 2000 0.2 0.2 1 0 0 0.8 0.2 0.2\n 2100 0.25 0.25 1 0 0 0.75 0.2 0.2 /\n"},
+            {"DIFFC", "DIFFC\n 18 16 0.001 0.002 0.001 0.002 /\n"},
+            {"STCOND", "STCOND\n 20 1.01325 /\n"},
+            {"SALINITY", "SALINITY\n 0.5 /\n"},
+        };
+        static const char* names[] = {"SWOF","SGOF","SLGOF","SOF2","SOF3","SWFN","SGFN","SSFN","SGWFN","PVDG","PVDO","PVDS","PLYADS","PLYVISC","PLYDHFLF","PLYMAX","PLYROCK","PLYSHLOG","ROCKTAB","RSVD","RVVD","RVWVD","PBVD","PDVD","SALTVD","SALTPVD","SALTSOL","AQUTAB","ENKRVD","ENPTVD","IMKRVD","IMPTVD","OILVISCT","WATVISCT","GASVISCT","RTEMPVD","TEMPVD","TLPMIXPA","MSFN","SPECHEAT","SPECROCK","FOAMADS","FOAMMOB","PMISC","MISC","SORWMIS","SGCWMIS","PCFACT","PERMFACT","ROCKWNOD","OVERBURD","GSF","WSF"};
+        auto tm_obs = [](const TableManager& tm) {
+            std::string o;
+            for (const char* n : names) {
+                if (!tm.hasTables(n)) { o += std::string(n) + "-;"; continue; }
+                const auto& c = tm.getTables(n);
+                o += std::string(n) + ":" + std::to_string(c.size()) + "/" + std::to_string(c.max()) + "[";
+                for (size_t t = 0; t < c.max(); ++t) if (c.hasTable(t)) { try { const auto& tab = c.getTable(t); o += std::to_string(tab.numRows()) + "x" + std::to_string(tab.numColumns()) + ":"; for (size_t r = 0; r < tab.numRows(); ++r) for (size_t k = 0; k < tab.numColumns(); ++k) o += vf::fmt17(tab.get(k, r)) + ","; } catch (const std::exception&) { o += "?"; } o += "|"; }
+                o += "];";
+            }
+            o += "pvto" + std::to_string(tm.getPvtoTables().size()) + " pvtg" + std::to_string(tm.getPvtgTables().size()) + " pvtw" + std::to_string(tm.getPvtwTable().size()) + " dens" + std::to_string(tm.getDensityTable().size()) + " rock" + std::to_string(tm.getRockTable().size()) + " rtemp" + vf::fmt17(tm.rtemp()) + " jf" + (tm.useJFunc() ? "1" : "0") + " fip" + std::to_string(tm.numFIPRegions());
+            return o;
+        };
+        const std::string head = "RUNSPEC\nDIMENS\n 3 3 2 /\nOIL\nWATER\nGAS\nPOLYMER\nMETRIC\nTABDIMS\n 1 1 20 20 1 20 /\nEQLDIMS\n 1 /\nREGDIMS\n 1 1 /\nAQUDIMS\n 1 1 2 36 1 1 /\nMISCIBLE\n 1 20 /\nENDSCALE\n /\nROCKCOMP\n REVERS 1 /\nGRID\nPROPS\n";
+        const int NF = (int)fam.size();
+        for (int a = 0; a < NF; ++a) for (int b = 0; b < NF; ++b) {
+            if (!run.mine()) continue;
+            if (a == b && a != 0) continue;
+            if (b != 0 && a == 0) continue;                         // singles are (a, none)
+            if (run.quick() && b != 0 && !(a <= 2 || b <= 2 || (a + b) % 4 == 0)) continue;   // quick: all singles, all pairs with the hand-split families, a quarter of the rest
+            const std::string cs = "TM " + std::to_string(a) + " " + std::to_string(b);
+            if (!only.empty() && cs != only) continue;
+            run.current(cs);
+            try {
+                auto deck = parser.parseString(head + fam[a].second + fam[b].second);
+                TableManager tm(deck);
+                const TableManager twin(deck);
+                roundtrip("TableManager", tm, [] { return std::make_unique<TableManager>(); }, tm_obs, cs);
+                if (vf::canon(tm) != vf::canon(twin) || tm_obs(tm) != tm_obs(twin)) run.violation("C11:TableManager:differs-from-twin-after-roundtrip", "a TableManager that went through pack() differs from a twin built from the same deck (families " + fam[a].first + " " + fam[b].first + ")", "{\"case\": " + vf::jstr(cs) + "}");
+                run.count("table_manager_cases");
+            } catch (const std::exception& e) { run.count("table_manager_decks_rejected"); run.notes["tm_reject_" + fam[a].first + "_" + fam[b].first] = std::string(e.what()).substr(0, 120); }
+        }
+    }
+    if (!only.empty()) return run.finish();
     dynamic_states(run.thorough());
     run.traces_validated = run.transitions;
     return run.finish();
